@@ -18,7 +18,7 @@ var Pool = []string{
 	"go.mod", "GO.MOD", "Go.Mod", "sub/go.mod", "sub/GO.MOD", "sub/x.go", "sub/deep/y.go", "SUB/z.go",
 	"vendor/modules.txt", "vendor/x.go", "vendor/p/x.go", "pkg/vendor/vendor.go", "pkg/vendor/p/x.go", "sub/vendor/p/x.go", "cmd/vendor/vendor.go",
 	"LICENSE", "sub/LICENSE", ".hg_archival.txt", "sub/.hg_archival.txt",
-	"con", "con.txt", "a b", "é", "K", "k", "k/x", "σ", "ς",
+	"con", "con.txt", "a b", "é", "K", "k", "\u212a", "k/x", "\u212a/y", "s", "\u017f", "σ", "ς",
 	"../x", "./a", "a//b", "a/", "/abs", "", "a:b", "a\\b", ".", "vendor", "sub", "x.", "a~1",
 }
 
@@ -26,7 +26,7 @@ var Pool = []string{
 var SmallPool = []string{
 	"a", "A", "a/b", "go.mod", "GO.MOD", "sub/go.mod", "sub/GO.MOD", "sub/x.go",
 	"vendor/modules.txt", "vendor/p/x.go", "pkg/vendor/vendor.go", "pkg/vendor/p/x.go",
-	"LICENSE", ".hg_archival.txt", "con", "K", "k", "σ", "ς", "../x", "a//b", "/abs", "a:b", "sub",
+	"LICENSE", ".hg_archival.txt", "con", "K", "k", "\u212a", "s", "\u017f", "σ", "ς", "../x", "a//b", "/abs", "a:b", "sub",
 }
 
 // GoMods are the contents tried for a root go.mod.
